@@ -34,19 +34,36 @@ VARIABLES l,        \* next event
           removed,  \* part wrappers whose directory removal was announced
           filePids, \* set of <<snap, pid>>: file-backed parts of a published snapshot
           snapOpen, \* file snapshots in progress: set of <<id, tbl>>
-          snapSaw   \* set of <<id, snap>>: snapshots that were current at some moment of file snapshot id
+          snapSaw,  \* set of <<id, snap>>: snapshots that were current at some moment of file snapshot id
+          curPids   \* set of <<tbl, pid>>: part ids (directory names) of the table's current snapshot
 
-vars == <<l, cur, epochOf, live, dead, partsOf, zeroed, removableZ, removed, filePids, snapOpen, snapSaw>>
+vars == <<l, cur, epochOf, live, dead, partsOf, zeroed, removableZ, removed, filePids, snapOpen, snapSaw, curPids>>
 
 SetOf(seq) == { seq[i] : i \in 1..Len(seq) }
 
 TraceInit == /\ l = 1 /\ cur = {} /\ epochOf = {} /\ live = {} /\ dead = {} /\ partsOf = {}
              /\ zeroed = {} /\ removableZ = {} /\ removed = {} /\ filePids = {} /\ snapOpen = {} /\ snapSaw = {}
+             /\ curPids = {}
 
 Ev == Trace[l]
 Is(name) == l <= Len(Trace) /\ Ev.event = name /\ l' = l + 1
 
 LiveHolders(p) == { s \in live : <<s, p>> \in partsOf }
+
+\* ---- what one publication may do to the set of parts (C05: a reader sees either the inputs of a merge or its output,
+\* never both, never neither; TSTable.tla Introduce / Flush / Merge / Sync).  creator: 0 a new part was introduced,
+\* 1 flusher (memory parts become file parts under the same ids), 2 merger, 3 the flusher's merge of memory parts,
+\* 4 syncer (shipped parts leave).  The first snapshot of a table (loaded at start-up) is unconstrained.
+Publication(tbl, creator, newPids) ==
+  LET known == \E pr \in cur : pr[1] = tbl
+      old == { pr[2] : pr \in { x \in curPids : x[1] = tbl } }
+      gone == old \ newPids
+      added == newPids \ old
+  IN \/ ~known
+     \/ creator = 0 /\ gone = {} /\ Cardinality(added) = 1
+     \/ creator = 1 /\ gone = {} /\ added = {}
+     \/ creator \in {2, 3} /\ gone # {} /\ Cardinality(added) = 1     \* the inputs leave in the step that adds the output
+     \/ creator = 4 /\ added = {}
 
 Replace ==
   /\ Is("Replace")
@@ -56,6 +73,8 @@ Replace ==
      /\ \A pr \in epochOf : pr[1] = Ev.tbl => pr[2] < Ev.epoch
      \* a published snapshot never contains a released part
      /\ ps \cap zeroed = {}
+     /\ Publication(Ev.tbl, Ev.creator, SetOf(Ev.pids))
+     /\ curPids' = { pr \in curPids : pr[1] # Ev.tbl } \cup { <<Ev.tbl, Ev.pids[i]>> : i \in 1..Len(Ev.pids) }
      /\ cur' = { pr \in cur : pr[1] # Ev.tbl } \cup { <<Ev.tbl, Ev.snap>> }
      /\ epochOf' = { pr \in epochOf : pr[1] # Ev.tbl } \cup { <<Ev.tbl, Ev.epoch>> }
      /\ live' = live \cup { Ev.snap }
@@ -67,7 +86,7 @@ Replace ==
 SnapInc ==          \* pinning a dead snapshot would resurrect freed parts
   /\ Is("SnapInc")
   /\ Ev.snap \notin dead
-  /\ UNCHANGED <<cur, epochOf, live, dead, partsOf, zeroed, removableZ, removed, filePids, snapOpen, snapSaw>>
+  /\ UNCHANGED <<cur, epochOf, live, dead, partsOf, zeroed, removableZ, removed, filePids, snapOpen, snapSaw, curPids>>
 
 SnapDec ==          \* a decrement that left the counter above 0 may be logged after the one that reached 0
   /\ Is("SnapDec")
@@ -82,8 +101,8 @@ SnapDec ==          \* a decrement that left the counter above 0 may be logged a
             \* is still in progress)
             /\ partsOf' = { pr \in partsOf : pr[1] # Ev.snap }
             /\ filePids' = { pr \in filePids : pr[1] # Ev.snap \/ (\E x \in snapSaw : x[2] = Ev.snap) }
-       ELSE UNCHANGED <<dead, live, cur, partsOf, filePids>>
-  /\ UNCHANGED <<epochOf, zeroed, removableZ, removed, snapOpen, snapSaw>>
+       ELSE UNCHANGED <<dead, live, cur, partsOf, filePids, curPids>>
+  /\ UNCHANGED <<epochOf, zeroed, removableZ, removed, snapOpen, snapSaw, curPids>>
 
 PartZero ==         \* the last reference goes only after every snapshot holding the part is dead
   /\ Is("PartZero")
@@ -91,7 +110,7 @@ PartZero ==         \* the last reference goes only after every snapshot holding
   /\ LiveHolders(Ev.part) = {}
   /\ zeroed' = zeroed \cup { Ev.part }
   /\ removableZ' = IF Ev.removable THEN removableZ \cup { Ev.part } ELSE removableZ
-  /\ UNCHANGED <<cur, epochOf, live, dead, partsOf, removed, filePids, snapOpen, snapSaw>>
+  /\ UNCHANGED <<cur, epochOf, live, dead, partsOf, removed, filePids, snapOpen, snapSaw, curPids>>
 
 PartRemove ==       \* files are deleted once, only for replaced (removable) parts, only after release
   /\ Is("PartRemove")
@@ -99,7 +118,7 @@ PartRemove ==       \* files are deleted once, only for replaced (removable) par
   /\ Ev.part \notin removed
   /\ LiveHolders(Ev.part) = {}
   /\ removed' = removed \cup { Ev.part }
-  /\ UNCHANGED <<cur, epochOf, live, dead, partsOf, zeroed, removableZ, filePids, snapOpen, snapSaw>>
+  /\ UNCHANGED <<cur, epochOf, live, dead, partsOf, zeroed, removableZ, filePids, snapOpen, snapSaw, curPids>>
 
 \* ---- file snapshots (C19): the copy holds exactly the file parts of ONE snapshot that was current during the
 \* call, its manifest lists nothing that is not in the copy, and the copy opens with exactly those parts
@@ -107,7 +126,7 @@ FileSnapBegin ==
   /\ Is("FileSnapBegin")
   /\ snapOpen' = snapOpen \cup { <<Ev.id, Ev.tbl>> }
   /\ snapSaw' = snapSaw \cup { <<Ev.id, pr[2]>> : pr \in { x \in cur : x[1] = Ev.tbl } }
-  /\ UNCHANGED <<cur, epochOf, live, dead, partsOf, zeroed, removableZ, removed, filePids>>
+  /\ UNCHANGED <<cur, epochOf, live, dead, partsOf, zeroed, removableZ, removed, filePids, curPids>>
 
 FilePidsOf(s) == { pr[2] : pr \in { x \in filePids : x[1] = s } }
 
@@ -124,7 +143,7 @@ FileSnapEnd ==
   /\ snapOpen' = snapOpen \ { <<Ev.id, Ev.tbl>> }
   /\ snapSaw' = { x \in snapSaw : x[1] # Ev.id }
   /\ filePids' = { pr \in filePids : pr[1] \in live \/ (\E x \in snapSaw : x[1] # Ev.id /\ x[2] = pr[1]) }
-  /\ UNCHANGED <<cur, epochOf, live, dead, partsOf, zeroed, removableZ, removed>>
+  /\ UNCHANGED <<cur, epochOf, live, dead, partsOf, zeroed, removableZ, removed, curPids>>
 
 TraceNext == Replace \/ SnapInc \/ SnapDec \/ PartZero \/ PartRemove \/ FileSnapBegin \/ FileSnapEnd
 
